@@ -51,6 +51,7 @@ type aRoute struct {
 type hdrC struct {
 	Name string `json:"name"`
 	Expr string `json:"expr"`
+	Sp   int    `json:"sp,omitempty"` // how the name is spelled in the Headers() call: 1 canonical, 2 lower case (0: chosen by position)
 }
 
 type hEntry struct {
@@ -887,7 +888,7 @@ func (x *treeExec) run(tr *traceWriter) {
 		pairs := []string{}
 		for k, hc := range hp.Hdr {
 			nm := hc.Name
-			if (call+k)%3 == 1 {
+			if hc.Sp == 2 || (hc.Sp == 0 && (call+k)%3 == 1) {
 				nm = strings.ToLower(nm) // header names are case-insensitive: the constraint may be spelled any way
 			}
 			pairs = append(pairs, nm, hc.Expr)
